@@ -126,10 +126,9 @@ func verifC08Lengths() ([]int, string) {
 	return r, fmt.Sprintf("all 0..%d (chunk %d bytes, %d references per encrypted intermediate chunk)", max, c, eb)
 }
 
-func TestVerifC08Store(t *testing.T) {
-	verifC08PipelineHarness(t)
-	verifC08FabricatedHarness(t)
-}
+// one Test function per harness (a replay file addresses one harness)
+func TestVerifC08StorePipeline(t *testing.T)   { verifC08PipelineHarness(t) }
+func TestVerifC08StoreFabricated(t *testing.T) { verifC08FabricatedHarness(t) }
 
 func verifC08PipelineHarness(t *testing.T) {
 	lengths, desc := verifC08Lengths()
